@@ -8,7 +8,12 @@ FAMILIES = {
 PROPS = {
     "C10": dict(
         family="fmt",
-        theorems=[],
+        theorems=T("C10", "run_sat", "parse_no_oob", "parse_terminates", "parse_no_ub", "null_fmt", "outcomes_all_args",
+                   "char_padding_only_assert_partial", "char_padding_assert_raised", "toString_utf8_sat", "outcomes_partial", "zero_args"),
+        partial="'the only way it stops the process is the documented char-padding assertion' is proved for argument lists whose floating-point renderings are "
+                "shorter than the library's 64-byte buffer (Arg.FloatFits); for longer renderings the pinned code aborts with 'Format buffer too small' (defect 13, "
+                "property C13). outcomes_all_args is the unconditional statement (every argument list) and lists that message explicitly. A result of 2^28 bytes or more "
+                "trips the documented size-limit assertion of ST::string (named in outcomes_partial). Reads of the real machine are observed by ASan, not proved.",
         rule="every string over the 16-symbol critical alphabet { } _ . & 0 1 9 + - space x c < a \\x80 up to length 4 (quick) / 5 (thorough), each with 0 arguments and "
              "three argument lists drawn from a pool of 16 lists over int, unsigned, long long, char, wchar_t, char16_t, bool, const char*, null const char*, ST::string, "
              "std::string_view, float, double; grammar-directed random format strings (1-3 fields of 0-5 items in any order: flags, '_' + any pad byte, widths incl. numerals "
